@@ -1,6 +1,7 @@
 (* props/C14.v - C14: one lattice: Cartesian map, periodic images and cell area agree (reals). *)
 From Coq Require Import ZArith List Bool Reals Sorted. Import ListNotations.
 From PV Require Import Num NumR model.Geom proofs.LatticeFacts proofs.SiteFacts.
+From PV Require Import gen.GenFns proofs.SourceFacts.
 
 Theorem C14_to_cartesian_linear :
   forall c : cellR, to_cartesian NumR c (1%R, 0%R) = vecA c /\ to_cartesian NumR c (0%R, 1%R) =
@@ -62,3 +63,20 @@ Print Assumptions C14_centre.
    C15_placement_spec: sym_row), so the hypothesis of C14_periodic_images_exact is met *)
 Example C14_affine_row_satisfiable : affine_row (@mkTf NumR 1 0 (1/4) 0 1 (-1/4) 0 0 0)%R.
 Proof. unfold affine_row. cbn. repeat split; auto. Qed.
+
+Theorem C14_cell_area_is_source :
+  forall (NN : Num) (c : cell NN), gen_cell_area NN c = cell_area NN c.
+Proof. exact cell_area_is_source. Qed.
+Print Assumptions C14_cell_area_is_source.
+
+Theorem C14_to_cartesian_is_source :
+  forall (NN : Num) (c : cell NN) (x y : carrier NN), gen_to_cartesian NN c x y = to_cartesian
+    NN c (x, y).
+Proof. exact to_cartesian_is_source. Qed.
+Print Assumptions C14_to_cartesian_is_source.
+
+Theorem C14_source_translated :
+  gen_fns_problem = String.EmptyString.
+Proof. exact source_translated. Qed.
+Print Assumptions C14_source_translated.
+
